@@ -112,6 +112,18 @@ pub fn ln_needles(lengths: &[usize], max_u: usize) -> Vec<Vec<u8>> {
         let mut v = common.clone();
         v[l / 2] = b'z';
         out.push(v); // one rare byte, second choice arbitrary
+        // long periods (period > half the length): W W[..r] with the rare
+        // bytes at several places of W, in particular in its last r bytes
+        for &per in &[l - 3, l - 8, l * 3 / 4, l / 2 + 1] {
+            for &(za, qa) in &[(1usize, per - 2), (per - 1, per / 2), (per - 2, per - 1), (0, 1), (per / 2, per / 2 + 3)] {
+                let mut w = vec![b'e'; per];
+                w[0] = b'a';
+                w[za % per] = b'z';
+                w[qa % per] = b'q';
+                w[(per / 3) % per] = b'j';
+                out.push(rep(&w, l));
+            }
+        }
         // bytes equal mod 64
         out.push(rep(&[0x01, 0x41, 0x81, 0xc1], l));
         let mut v = rep(&[0x01, 0x41], l);
@@ -129,6 +141,48 @@ pub fn ln_needles(lengths: &[usize], max_u: usize) -> Vec<Vec<u8>> {
 /// most `max_pieces` pieces, capped at `cap` bytes, plus `pad_l + needle +
 /// pad_r` for every pad_l, pad_r <= max_pad (two pad bytes).
 pub fn factor_haystacks(
+    needle: &[u8],
+    crit: Option<usize>,
+    max_pieces: usize,
+    max_pad: usize,
+    cap: usize,
+) -> Vec<Vec<u8>> {
+    let mut out = factor_haystacks_base(needle, crit, max_pieces, max_pad, cap);
+    // near-occurrences with a change at EVERY position (single byte, and a
+    // run from that position of up to 6 bytes), in pairs separated by gaps:
+    // x+needle[1..] / needle / flipped needle, then a gap, then a flipped needle
+    let m = needle.len();
+    let firsts: Vec<Vec<u8>> = {
+        let mut a = needle.to_vec();
+        a[0] = if a[0] == b'x' { b'w' } else { b'x' };
+        let mut b = needle.to_vec();
+        b[m / 2] = if b[m / 2] == b'x' { b'w' } else { b'x' };
+        vec![a, b, needle[1..].to_vec()]
+    };
+    for first in &firsts {
+        for j in 0..m {
+            for run in [1usize, 6] {
+                let mut second = needle.to_vec();
+                for t in j..(j + run).min(m) {
+                    second[t] = if second[t] == b'o' { b'w' } else { b'o' };
+                }
+                for gap in [0usize, 1, 7, 40] {
+                    let mut h = first.clone();
+                    h.extend(std::iter::repeat(b'y').take(gap));
+                    h.extend_from_slice(&second);
+                    out.push(h.clone());
+                    // ... followed by a genuine occurrence
+                    h.extend(std::iter::repeat(b'y').take(gap / 2));
+                    h.extend_from_slice(needle);
+                    out.push(h);
+                }
+            }
+        }
+    }
+    out
+}
+
+fn factor_haystacks_base(
     needle: &[u8],
     crit: Option<usize>,
     max_pieces: usize,
@@ -273,4 +327,62 @@ pub fn pf_haystacks(needle: &[u8], i1: usize, i2: usize, thorough: bool) -> Vec<
         }
     }
     out
+}
+
+/// SF ("short factor") haystacks for a short needle: two near-occurrences
+/// (the needle, or the needle with one byte changed, or a proper prefix /
+/// suffix of it) separated by a short gap, embedded in padding so that the
+/// haystack is long enough for Two-Way / the vector searchers:
+/// `pad_l + P + gap + Q + pad_r` for every pair of pieces, every gap of at
+/// most two letters, and a grid of pads.
+pub fn sf_haystacks(needle: &[u8], letters: &[u8], foreign: u8, three: bool, mut f: impl FnMut(&[u8])) {
+    let m = needle.len();
+    let mut pieces: Vec<Vec<u8>> = vec![needle.to_vec()];
+    for j in 0..m {
+        for &l in letters.iter().chain(std::iter::once(&foreign)) {
+            if l != needle[j] {
+                let mut v = needle.to_vec();
+                v[j] = l;
+                pieces.push(v);
+            }
+        }
+    }
+    for j in 1..m {
+        pieces.push(needle[..j].to_vec());
+        pieces.push(needle[j..].to_vec());
+    }
+    pieces.sort();
+    pieces.dedup();
+    let mut gaps: Vec<Vec<u8>> = vec![vec![]];
+    let gl: Vec<u8> = letters.iter().copied().chain(std::iter::once(foreign)).collect();
+    for &a in &gl {
+        gaps.push(vec![a]);
+    }
+    for &a in &gl {
+        for &b in &gl {
+            gaps.push(vec![a, b]);
+        }
+    }
+    gaps.push(vec![foreign; 5]);
+    let pads: [(usize, usize); 5] = [(0, 16), (16, 0), (1, 17), (7, 9), (0, 0)];
+    let mut h: Vec<u8> = Vec::with_capacity(64);
+    for p in &pieces {
+        for q in &pieces {
+            for g in &gaps {
+                for &(pl, pr) in &pads {
+                    h.clear();
+                    h.extend(std::iter::repeat(foreign).take(pl));
+                    h.extend_from_slice(p);
+                    h.extend_from_slice(g);
+                    h.extend_from_slice(q);
+                    if three {
+                        h.extend_from_slice(g);
+                        h.extend_from_slice(p);
+                    }
+                    h.extend(std::iter::repeat(foreign).take(pr));
+                    f(&h);
+                }
+            }
+        }
+    }
 }
